@@ -50,11 +50,11 @@ G_N4_SR_WF = (4, 2, '{"s","r"}', False, True)
 G_N2_ALL_ANY = (2, 2, ALL_KINDS, True, False)
 G_N4_IP_WF = (4, 2, '{"i","p"}', False, True)
 G_N4_IR_WF = (4, 2, '{"i","r"}', False, True)
-ALL_GEN = [G_N3_ALL_WF, G_N4_S_WF, G_N3_ALL_ANY, G_N2_ALL_ANY, G_N4_IP_WF, G_N4_IR_WF, G_N3_D3_WF, G_N4_SP_WF, G_N4_SR_WF]
+ALL_GEN = [G_N3_ALL_WF, G_N4_S_WF, G_N3_ALL_ANY, G_N2_ALL_ANY, G_N4_IP_WF, G_N4_IR_WF, G_N4_SP_WF, G_N4_SR_WF, G_N3_D3_WF]
 
 
 def pregen(ctx, thorough=False):
-    for a in (ALL_GEN if thorough else ALL_GEN[:6]):
+    for a in (ALL_GEN if thorough else ALL_GEN[:8]):
         p = gen(ctx, *a)
         log('[setup] %s: %d cases' % (os.path.basename(p), vlib.count_lines(p)))
 
@@ -73,11 +73,12 @@ def mc_expander(ctx, casefile, cont, skip, label, liveness=True):
 
 class Batch:
     def __init__(self, genset, layouts, opts, rots, failsets=('none',), reps=2, names='plain', spell='simple', entry='ExpandSpec',
-                 caches='none', ids='', watchdog='8s', oddtargets=False, allfaults=False):
+                 caches='none', ids='', watchdog='8s', oddtargets=False, allfaults=False, site=''):
         self.genset, self.layouts, self.opts, self.rots = genset, layouts, opts, rots
         self.failsets, self.reps, self.names, self.spell, self.entry = failsets, reps, names, spell, entry
         self.caches = caches
         self.ids, self.watchdog, self.oddtargets, self.allfaults = ids, watchdog, oddtargets, allfaults
+        self.site = site
 
 
 def random_graphs(ctx, n, docs, count, dangling=False):
@@ -112,6 +113,8 @@ def observe(ctx, batches):
             args += ['-oddtargets']
         if b.allfaults:
             args += ['-allfaults']
+        if b.site:
+            args += ['-site', b.site]
         obsfiles += vlib.run_worker(ctx, 'expander', cases, args, prefix='exp%d' % i)
     # one oracle process per core: merge the per-batch shards
     k = vlib.NCPU
@@ -151,7 +154,7 @@ def brief(o, v):
 
 def replay_obj(o, v):
     return {'family': 'expander', 'case': o['case'], 'names': o.get('names'), 'spell': o.get('spell'), 'reps': o.get('reps'),
-            'cache': o.get('cache'), 'elem': o.get('elem'),
+            'cache': o.get('cache'), 'elem': o.get('elem'), 'site': o.get('site') or '',
             'abstract': o['abstract'], 'layout': o['layout'], 'rot': o['rot'], 'opts': o['opts'],
             'entry': o['entry'], 'failurl': o['failurl'], 'preload': o['preload'], 'docurls': o['docurls'],
             'concrete': o['concrete'], 'outcome': o['outcome'], 'err': o['err'], 'detail': o.get('detail', ''),
@@ -183,8 +186,10 @@ def confirm_crashes(ctx, pairs, preds=None):
         for i, o in crashed:
             w.write(json.dumps({'case': o['case'], 'nodes': o['abstract'], 'layout': o['layout'], 'rot': o['rot'], 'opts': o['opts'],
                                 'entry': o['entry'] or 'ExpandSpec', 'reps': 1, 'failurl': o['failurl'], 'preload': o['preload'],
-                                'names': o.get('names') or 'plain', 'spell': o.get('spell') or 'simple', 'cache': o.get('cache') or 'none'}) + '\n')
-    obsfiles = vlib.run_worker(ctx, 'expander', f, ['-watchdog', '30s'], shards=min(8, len(crashed)), prefix='confirm')
+                                'names': o.get('names') or 'plain', 'spell': o.get('spell') or 'simple', 'cache': o.get('cache') or 'none',
+                                'site': o.get('site') or ''}) + '\n')
+    entries = sorted(set(o['entry'] or 'ExpandSpec' for i, o in crashed))
+    obsfiles = vlib.run_worker(ctx, 'expander', f, ['-watchdog', '30s', '-entry', ','.join(entries)], shards=min(8, len(crashed)), prefix='confirm')
     again = judge(ctx, obsfiles, preds)
     log('[confirm] %d crashed cases re-run alone: %d crash again' % (len(crashed), sum(1 for o, v in again if o['outcome'] in ('timeout', 'fatal'))))
     key = lambda o: json.dumps([o['abstract'], o['layout'], o['rot'], o['opts'], o['entry'], o['failurl']], sort_keys=True)
@@ -256,7 +261,12 @@ def s1_batches(ctx, opts, skip_collide=False):
                 Batch(('random', 14, 4, 3000), [a + '+' + b + '+' + c for a in ORDINARY[:4] for b in ('subdir', 'prefixdir') for c in ('sibling', 'remote')],
                       opts, rots[:1], reps=2, names=sd['names'], spell='varied'),
                 Batch(('random', 24, 5, 600), ['sibling+subdir+parent+otherdir', 'remote+prefixfile+subsub+sibling'], opts, rots[1:2], reps=2,
-                      names='special', spell='varied')]
+                      names='special', spell='varied'),
+                Batch(G_N4_S_WF, ['sibling', 'remote'], opts, rots[:2], reps=1, names='casetwin', spell='varied'),
+                Batch(G_N3_D3_WF, ['casefile+casefile', 'sibling+subdir'], opts, rots[:1], reps=1, names='casetwin'),
+                Batch(G_N3_D3_WF, lay2[:9], opts, rots[:1], reps=2, entry='ExpandSpec:nobase,ExpandSpec2:nobase', names=sd['names'], spell=sd['spell']),
+                Batch(G_N3_D3_WF, ['localfile+sibling', 'remote+subdir', 'parent+localfile', 'samepath+samepathq', 'samepathq+samepathq'], opts, rots[:1], reps=1, site='http', spell='varied'),
+                Batch(G_N3_D3_WF, ['samepath+samepathq', 'samepathq+sibling'], opts, rots[:1], reps=1, names=sd['names'], spell=sd['spell'])]
     few = [ALL_LAYOUTS[(ctx.seed + i) % len(ALL_LAYOUTS)] for i in (0, 3, 6)]
     other = 'plain' if sd['names'] == 'special' else 'special'
     return [Batch(G_N3_ALL_WF, ALL_LAYOUTS, opts, [sd['rot']], reps=3, names=sd['names'], spell=sd['spell']),
@@ -264,7 +274,13 @@ def s1_batches(ctx, opts, skip_collide=False):
             Batch(G_N4_IP_WF, few[:2], opts[:1], [sd['rot']], reps=1, names=sd['names'], spell=sd['spell']),
             Batch(G_N4_IR_WF, few[1:], opts[:1], [(sd['rot'] + 1) % 12], reps=1, names=other, spell=sd['spell']),
             Batch(('random', 10, 3, 240), [few[0] + '+' + few[1], few[2] + '+sibling'], opts, [(sd['rot'] + 2) % 12], reps=2,
-                  names=sd['names'], spell='varied')]
+                  names=sd['names'], spell='varied'),
+            # names that differ by letter case only; no RelativeBase in the options; the root on a remote site
+            Batch(G_N4_S_WF, ['sibling'], opts, [sd['rot']], reps=1, names='casetwin', spell=sd['spell']),
+            Batch(G_N3_ALL_WF, ['sibling', 'subdir'], opts, [sd['rot']], reps=1, entry='ExpandSpec:nobase,ExpandSpec2:nobase',
+                  names=sd['names'], spell=sd['spell']),
+            Batch(G_N3_ALL_WF, ['localfile', 'sibling', 'samepath', 'samepathq'], opts[:1], [sd['rot']], reps=1, site='http', names=other, spell='varied'),
+            Batch(G_N3_ALL_WF, ['samepath', 'samepathq'], opts[:1], [sd['rot']], reps=1, names=sd['names'], spell=sd['spell'])]
 
 
 def s1_mc(ctx):
@@ -306,6 +322,10 @@ def check_c03(ctx):
         ASSUME)
 
 
+RELBASE_ENTRIES = 'ExpandParameter:relbase,ExpandResponse:relbase'
+FOREIGN_CACHES = 'foreignempty,foreignsuper'
+
+
 def check_c04(ctx):
     sd = seeded(ctx)
     four = ['000', '010', '100', '110']
@@ -318,7 +338,11 @@ def check_c04(ctx):
                    Batch(('random', 16, 4, 4000, True), ['sibling+subdir+parent', 'remote+prefixdir+otherdir'], four, [sd['rot']], reps=1, spell='varied'),
                    Batch(('random', 40, 6, 500, True), ['sibling+subdir+parent+otherdir+remote'], four, [sd['rot']], reps=1, names='special', spell='varied'),
                    Batch(G_N3_ALL_ANY, ['sibling', 'subdir'], four, [0, 1], reps=1, oddtargets=True),
-                   Batch(G_N4_S_WF, ['sibling'], ['000'], [sd['rot'] % 3], reps=1, ids='abs,relfile,frag', watchdog='4s')]
+                   Batch(G_N4_S_WF, ['sibling'], ['000'], [sd['rot'] % 3], reps=1, ids='abs,relfile,frag', watchdog='4s'),
+                   Batch(G_N3_ALL_WF, ['sibling', 'subdir'], ['000'], [sd['rot']], reps=1, entry=RELBASE_ENTRIES),
+                   Batch(G_N4_SP_WF, ['sibling', 'subdir'], ['000'], [sd['rot']], reps=1, entry='ExpandParameter:relbase'),
+                   Batch(G_N4_SR_WF, ['sibling', 'subdir'], ['000'], [sd['rot']], reps=1, entry='ExpandResponse:relbase'),
+                   Batch(G_N3_ALL_ANY, ['sibling', 'subdir'], four, [sd['rot']], reps=1, entry='ExpandSpec:nobase')]
         mcs = [(G_N3_ALL_ANY, False, False, 'any_strict_full'), (G_N3_ALL_ANY, True, False, 'any_cont_full'),
                (G_N3_ALL_ANY, False, True, 'any_strict_skip'), (G_N3_ALL_ANY, True, True, 'any_cont_skip'),
                (G_N4_S_WF, False, False, 'N4S_strict_full')]
@@ -328,7 +352,10 @@ def check_c04(ctx):
                    Batch(G_N4_S_WF, [ALL_LAYOUTS[(ctx.seed + 3) % len(ALL_LAYOUTS)]], ['000', '110'], [sd['rot']], reps=1),
                    Batch(G_N3_ALL_WF, ['sibling'], ['000', '010'], sorted({ctx.seed % 4, 3}), reps=1, ids='abs,relfile,frag,reldir', watchdog='4s'),
                    Batch(('random', 14, 3, 300, True), ['sibling+subdir', 'parent+remote'], four, [sd['rot']], reps=1, spell='varied'),
-                   Batch(G_N3_ALL_ANY, ['sibling'], ['000', '010'], [sd['rot']], reps=1, oddtargets=True)]
+                   Batch(G_N3_ALL_ANY, ['sibling'], ['000', '010'], [sd['rot']], reps=1, oddtargets=True),
+                   Batch(G_N3_ALL_WF, ['sibling'], ['000'], [sd['rot']], reps=1, entry=RELBASE_ENTRIES),
+                   Batch(G_N4_SP_WF if ctx.seed % 2 else G_N4_SR_WF, ['sibling'], ['000'], [sd['rot']], reps=1,
+                         entry='ExpandParameter:relbase' if ctx.seed % 2 else 'ExpandResponse:relbase', watchdog='4s')]
         mcs = [(G_N3_ALL_ANY, False, False, 'any_strict_full'), (G_N3_ALL_ANY, True, True, 'any_cont_skip'),
                (G_N4_S_WF, False, False, 'N4S_strict_full')]
     rep = run_batches(ctx, batches, ['c04', 'c04work'], mcs, nontrivial=lambda o, v: v['cyclic'] or not v['wf'],
@@ -355,7 +382,11 @@ def check_c08(ctx):
                          reps=1, names=sd['names'], spell=sd['spell'], allfaults=True),
                    Batch(G_N3_D3_WF, ['sibling+subdir', 'parent+otherdir', 'remote+sibling'], modes, [sd['rot']],
                          failsets=('none', '1', '2', '1+2'), reps=1),
-                   Batch(G_N4_S_WF, ALL_LAYOUTS, ['000', '010'], [sd['rot']], failsets=('none', '1'), reps=1)]
+                   Batch(G_N4_S_WF, ALL_LAYOUTS, ['000', '010'], [sd['rot']], failsets=('none', '1'), reps=1),
+                   Batch(G_N3_ALL_ANY, ['sibling', 'subdir', 'remote'], modes, [sd['rot']], failsets=('none', '1'), reps=1,
+                         entry='ExpandSpec:nobase', allfaults=True),
+                   Batch(G_N3_ALL_ANY, ['sibling', 'subdir'], ['000'], [sd['rot']], reps=1, entry='ExpandSchema:typed,ExpandSchema:generic',
+                         caches=FOREIGN_CACHES, allfaults=True)]
         mcs = [(G_N3_ALL_ANY, False, False, 'any_strict_full'), (G_N3_ALL_ANY, True, False, 'any_cont_full'),
                (G_N3_ALL_ANY, False, True, 'any_strict_skip'), (G_N3_ALL_ANY, True, True, 'any_cont_skip')]
     else:
@@ -363,7 +394,11 @@ def check_c08(ctx):
                          reps=1, names=sd['names'], spell=sd['spell'], allfaults=True),
                    Batch(G_N3_ALL_WF, ALL_LAYOUTS, ['000', '010'], [(sd['rot'] + 1) % 12], failsets=('none', '1'), reps=1),
                    Batch(G_N4_IP_WF, [ALL_LAYOUTS[(ctx.seed + 2) % len(ALL_LAYOUTS)]], ['000', '010'], [sd['rot']], reps=1),
-                   Batch(G_N4_IR_WF, [ALL_LAYOUTS[(ctx.seed + 5) % len(ALL_LAYOUTS)]], ['000', '100'], [sd['rot']], reps=1)]
+                   Batch(G_N4_IR_WF, [ALL_LAYOUTS[(ctx.seed + 5) % len(ALL_LAYOUTS)]], ['000', '100'], [sd['rot']], reps=1),
+                   # options without a RelativeBase; a caller cache that served another root before
+                   Batch(G_N3_ALL_ANY, ['sibling'], ['000', '010'], [sd['rot']], reps=1, entry='ExpandSpec:nobase'),
+                   Batch(G_N3_ALL_ANY, ['sibling'], ['000'], [sd['rot']], reps=1, entry='ExpandSchema:typed,ExpandSchema:generic',
+                         caches=FOREIGN_CACHES)]
         mcs = [(G_N3_ALL_ANY, False, False, 'any_strict_full'), (G_N3_ALL_ANY, True, False, 'any_cont_full')]
     rep = run_batches(ctx, batches, preds, mcs, nontrivial=lambda o, v: v['nbad'] > 0 or len(o['failurl']) > 0,
                       sample=lambda o, v: v['nbad'] > 0)
@@ -429,11 +464,17 @@ def check_c10(ctx):
         mcs = [(G_N3_D3_WF, False, False, 'N3D3_strict_full'), (G_N4_S_WF, False, False, 'N4S_strict_full')]
     else:
         batches = [Batch(G_N3_ALL_WF, ALL_LAYOUTS, ['000'], [sd['rot']], reps=2, entry=ELEMENT_ENTRIES_CWD, names=sd['names'], spell=sd['spell']),
-                   Batch(G_N3_ALL_WF, ALL_LAYOUTS, ['000', '001'], [sd['rot']], reps=2, entry=ELEMENT_ENTRIES_BASE, names=sd['names'], spell=sd['spell'])]
+                   Batch(G_N3_ALL_WF, ALL_LAYOUTS, ['000', '001'], [sd['rot']], reps=2, entry=ELEMENT_ENTRIES_BASE, names=sd['names'], spell=sd['spell']),
+                   # parameters / responses that are themselves $refs to elements holding schemas (4 nodes)
+                   Batch(G_N4_SP_WF, ['sibling'], ['000'], [sd['rot']], reps=1, entry='ExpandParameterWithRoot,ExpandParameter:relbase'),
+                   Batch(G_N4_SR_WF, ['subdir'], ['000'], [sd['rot']], reps=1, entry='ExpandResponseWithRoot,ExpandResponse:relbase')]
         mcs = [(G_N3_ALL_WF, False, False, 'N3_strict_full')]
     fr = Batch(G_N3_ALL_WF, ALL_LAYOUTS if ctx.tier == 'thorough' else ['sibling', 'subdir', 'parent'], ['000'], [sd['rot']], reps=1,
-               entry='ExpandSchema:typed,ExpandSchema:generic', caches='foreignroot', names=sd['names'], spell=sd['spell'])
+               entry='ExpandSchema:typed,ExpandSchema:generic', caches='foreignroot,' + FOREIGN_CACHES, names=sd['names'], spell=sd['spell'])
     batches.append(fr)
+    # the base location given as a relative, non-canonical path
+    batches.append(Batch(G_N3_ALL_WF, ORDINARY if ctx.tier == 'thorough' else ['sibling', 'subdir'], ['000'], [sd['rot']], reps=1,
+                         entry=RELBASE_ENTRIES, names=sd['names'], spell=sd['spell']))
     rep = run_batches(ctx, batches, preds, mcs, nontrivial=lambda o, v: v['wf'] and o['outcome'] == 'ok')
     # options without a RelativeBase (only the caller's options and totality are judged: without a root
     # document the pseudo root is empty, so local references legitimately fail)
@@ -526,6 +567,10 @@ def check_c18(ctx):
     for b in batches:
         if b.entry != 'ExpandSpec':
             b.caches = caches
+    # a caller cache that served an expansion against ANOTHER root before (same shape, none of the sections, more sections)
+    batches.append(Batch(G_N3_ALL_WF, ALL_LAYOUTS if ctx.tier == 'thorough' else ['sibling', 'subdir'], ['000'], [sd['rot']], reps=1,
+                         entry='ExpandSchema:typed,ExpandSchema:generic', caches='none,foreignroot,' + FOREIGN_CACHES,
+                         names=sd['names'], spell='varied'))
     rep = run_batches(ctx, batches, preds, mcs, nontrivial=lambda o, v: len(o['docurls']) > 1,
                       sample=lambda o, v: o.get('cache') in ('reuse', 'preload') and len(o['loadss']) > 0,
                       post=c18_transparency)
@@ -549,17 +594,20 @@ def c18_transparency(rep, pairs):
     """acyclic graphs: the output bytes must not depend on the cache mode"""
     groups = {}
     for o, v in pairs:
-        if o['outcome'] != 'ok' or v['cyclic'] or not v['wf'] or not o.get('elem'):
+        if o['outcome'] not in ('ok', 'error') or not v['wf'] or not o.get('elem'):
             continue
-        k = json.dumps([o['abstract'], o['layout'], o['rot'], o['opts'], o['entry'], o['elem']], sort_keys=True)
+        k = json.dumps([o['abstract'], o['layout'], o['rot'], o['opts'], o['entry'], o['elem'], o.get('names'), o.get('spell')], sort_keys=True)
         groups.setdefault(k, []).append((o, v))
     n = 0
     for k, lst in groups.items():
-        outs = set(o['concrete'][-1] for o, v in lst)
+        # success or failure never depends on the cache; for acyclic graphs neither do the bytes
+        outs = set((o['outcome'], o['concrete'][-1] if o['outcome'] == 'ok' and not v['cyclic'] else '') for o, v in lst)
         n += 1
         if len(outs) > 1:
-            o, v = lst[0]
-            rep.fail('c18transparent', replay_obj(o, v), v.get('kf', []), 'outputs differ across cache modes: ' + brief(o, v))
+            o, v = next(((o, v) for o, v in lst if o.get('cache') not in ('none', None, '')), lst[0])
+            kf = sorted(set(x for o2, v2 in lst for x in v2.get('kf', [])))
+            rep.fail('c18transparent', replay_obj(o, v), kf, 'outcome / output differs across cache modes %s: %s' % (
+                sorted(set(o2.get('cache') for o2, v2 in lst)), brief(o, v)))
     rep.counts['c18transparent:groups'] = n
 
 
@@ -569,7 +617,7 @@ def replay(ctx, rec):
     vlib.build_worker(ctx)
     case = {'case': c.get('case', 1), 'nodes': c['abstract'], 'layout': c['layout'], 'rot': c['rot'], 'opts': c['opts'],
             'entry': c['entry'] or 'ExpandSpec', 'reps': c.get('reps') or 2, 'failurl': c['failurl'], 'preload': c['preload'],
-            'names': c.get('names') or 'plain', 'spell': c.get('spell') or 'simple', 'cache': c.get('cache') or 'none'}
+            'names': c.get('names') or 'plain', 'spell': c.get('spell') or 'simple', 'cache': c.get('cache') or 'none', 'site': c.get('site') or ''}
     f = ctx.path('replay_case.ndjson')
     open(f, 'w').write(json.dumps(case) + '\n')
     obsfiles = vlib.run_worker(ctx, 'expander', f, ['-entry', case['entry']], shards=1, prefix='replay')
